@@ -144,6 +144,7 @@ func judgeC03(key string, o *drive.Outcome) h.Result {
 	r.Count("type_comparisons", int64(o.NCmpType))
 	r.Count("expr_pairs", int64(o.NExprPairs))
 	r.NonTrivial = o.NCmpType > 0
+	r.Count("recorder_objects_compared", int64(o.NCmpRec))
 	if len(o.TypeDiffs) > 0 {
 		r.Verdict = h.Violated
 		r.Kind = "type: " + diffStr(o.TypeDiffs[0])
@@ -152,6 +153,14 @@ func judgeC03(key string, o *drive.Outcome) h.Result {
 			ds = append(ds, diffStr(d))
 		}
 		r.Detail = "reported type differs from go/types' context-free type of the emitted expression:\n" + firstN(ds, 4)
+	} else if len(o.RecDiffs) > 0 {
+		r.Verdict = h.Violated
+		r.Kind = "recorder: " + diffStr(o.RecDiffs[0])
+		var ds []string
+		for _, d := range o.RecDiffs {
+			ds = append(ds, diffStr(d))
+		}
+		r.Detail = "the object handed to Recorder.Member is not the member go/types selects for the same source node:\n" + firstN(ds, 4)
 	} else {
 		r.Detail = fmt.Sprintf("%d sub-expression types equal", o.NCmpType)
 	}
